@@ -233,6 +233,20 @@ class Body:
                 return False
             b = self.idom[b]
 
+    def reaches_acyclic(self, a, b):
+        """b reachable from a (a == b counts) without taking a back edge"""
+        seen = set()
+        st = [a]
+        while st:
+            x = st.pop()
+            if x == b:
+                return True
+            if x in seen:
+                continue
+            seen.add(x)
+            st.extend(t for (t, _) in self.succ[x] if (x, t) not in self.back)
+        return False
+
     def loops_of(self, bb):
         """loop heads whose natural loop contains bb, outermost first"""
         hs = [h for h, body in self.loops.items() if bb in body]
@@ -874,6 +888,11 @@ def show(t, names=None):
         return "is(%s, %s)" % (show(t[1], names), t[2])
     if k in ("phi", "rec") and ("phikey", t[1]) in names:
         return names[("phikey", t[1])]
+    if k == "phi" and len(t[2]) == 2:
+        nn = [m for m in t[2] if m[0] == "agg" and m[2].endswith("Option::None")]
+        ss = [m for m in t[2] if m[0] == "agg" and m[2].endswith("Option::Some") and len(m[3]) == 1]
+        if len(nn) == 1 and len(ss) == 1:
+            return "maybe(%s)" % show(ss[0][3][0], names)
     if k == "phi":
         c = cursor_phi(t, names)
         if c is not None:
